@@ -42,6 +42,9 @@ CHECKS = {
  "C11": ("explicit-state breadth-first search over operation histories on one Command value (real method calls as transitions, Debug-text canonical states), invariant = agreement with a fresh definition on every probe argv in every reached state",
          "Per configuration (28 quick / ~90 thorough dev(<=2) picks: nested and flag subcommands, globals, groups, inference, multicall, required args, help/version variants) two BFS runs over histories of {parse(argv_i) for 16 probe lines incl. failing ones, render help/long help/usage/version, clone} and the same plus build(), deduplicated on the Command's full Debug text, run to fixpoint (depth bound 5/8, reached on the current tree). In every distinct state every probe line is parsed on a clone and must equal the fresh definition's result: equal ArgMatches, same error kind, identical rendered message when no explicit build is in the history; build must be idempotent.",
          "Trusted: Debug text of Command as a complete state description (no deferred closures in the explored definitions); probe set as listed in checks/src/bin/c11.rs. Histories involving other argv than the probes are not explored.", "DESIGN.md §4 C11"),
+ "C12": ("exhaustive enumeration of help-shape configurations x terminal widths x entry points on the real renderer under a process-isolating supervisor; structural oracle on the rendered text",
+         "Configurations with <=2 arguments drawn from 15 shapes (short-only/long-only/both flags, short/long Count, options short/long/both/optional-value/require_equals/multi, positionals required/optional/multi/last) x 13 per-argument modifiers (hidden modes, next-line help, custom heading, long help, possible values incl. hidden and non-ASCII names, default, env, visible alias, long text) x 11 command modifiers (next-line help, flatten_help incl. equal display orders, 4 custom templates, subcommand heading, before/after help, hide_possible_values), always with two visible and one hidden subcommand; widths 10 values (quick) / all of 0..=200 for one-argument and 18 values for two-argument configurations (thorough); 6 entry points (render_help, render_long_help, render_usage, errors of -h, --help, viscmd -h). Oracle: no panic/abort/stall, output <1 MiB and no run of >512 spaces, every item visible in that mode listed in its section, hidden subcommand/possible-value/optional-hidden-argument markers absent, subcommand-level help shows that level only.",
+         "Trusted: section/marker parsing of the default template in checks/src/bin/c12.rs. Exact layout, ordering and wrapping are not compared. Configurations with three or more arguments are not explored.", "DESIGN.md §4 C12"),
 }
 PENDING_REASON = "check not built yet in this round (design in DESIGN.md §4); will be claimed when its checker exists"
 props = [json.loads(l) for l in open('/verif/properties.jsonl')]
